@@ -333,6 +333,10 @@ def rules(ctx):
     # forked entry, unset ones included (same rule as C02.R1)
     from .c02 import r1_snapshot
     r1_snapshot(ctx, rid="C10.R5", title="the snapshot taken at an assignment keeps every forked entry, unset ones included (a rejected velocity leaves no derived value behind)")
+    # "for any population values ... every row of the mixing matrix is orthogonal": the mixing matrix is what its definition gives from the current
+    # velocities, positions and betas - nothing but the State's own methods writes the cache (a loader keeping the matrix of the file) - same rule as C01.R1
+    from .c01 import r1_writers
+    r1_writers(ctx, ids=("C10.R6", "C10.R6b", "C10.R6c"))
     from .c09 import r8_conditioning
     r8_conditioning(ctx, rid="C10.R4", title="the functions of the positions g feeding the metric subtract no two quantities with the same limit on (0, +inf)")
     ctx.trust("torch.exp/log/mean algebra used by the charge domain (exp(a+m) = exp(a)exp(m), ...); sign/norm homogeneity")
